@@ -177,7 +177,7 @@ pub fn case(tape: &[u32]) -> CaseOutcome {
         };
     }
     let mut t = Tape::new(tape);
-    let base = pysrc::gen_source(&mut t);
+    let base = if t.chance(1, 40) { pysrc::MISSING_ONLY[t.choose(pysrc::MISSING_ONLY.len())].to_string() } else { pysrc::gen_source(&mut t) };
     let nfaults = t.weighted(&[2, 4, 4, 3, 2, 1, 1]);
     let source = pysrc::inject_faults(&mut t, &base, nfaults);
     match check_source(&source) {
